@@ -38,6 +38,7 @@ def main(argv=None) -> int:
     pk.add_argument("--seed", type=int, required=True)
     pk.add_argument("--n", type=int, required=True)
     pk.add_argument("--tier", default="quick")
+    pk.add_argument("--order", default="forward")
     pw = sub.add_parser("witness")
     pw.add_argument("--only", default=None)
     pe = sub.add_parser("explore")
@@ -75,7 +76,7 @@ def main(argv=None) -> int:
     if args.cmd == "c15-config":
         from . import c15
 
-        return c15.config_child(args.seed, args.n, args.tier)
+        return c15.config_child(args.seed, args.n, args.tier, args.order)
     if args.cmd == "witness":
         from . import runner
 
